@@ -125,7 +125,11 @@ class Parser:
                         f"Expected a Connection or an Element instead of {elem=}"
                     )
 
-                elements.append(elem)
+                if type(elem) is Series:
+                    # Merge nested series connections like explicit brackets do
+                    elements.extend(reversed(elem._elements))
+                else:
+                    elements.append(elem)
 
             elements.reverse()
             con = Series(elements)
